@@ -52,7 +52,31 @@ def bounded(e: ast.AST, limit: int, F: Folder) -> bool:
     return False
 
 
+def r11_6(prog: Program, rep):
+    """(seconds, nanoseconds) of an index entry are the quotient and the remainder of ONE integer (st_*_ns): seconds taken
+    from the float field round up for nsec >= 999_999_881 and the pair then names a time one second later than stat."""
+    m = prog.module(IDX)
+    f = m.funcs.get("index_entry_from_stat")
+    if f is None:
+        raise AnalysisError("index_entry_from_stat not found")
+    Fo = Folder(prog, m)
+    n = 0
+    for x in ast.walk(f.node):
+        if isinstance(x, ast.Assign) and isinstance(x.targets[0], ast.Name) and x.targets[0].id in ("ctime", "mtime") and isinstance(x.value, ast.Tuple) \
+                and len(x.value.elts) == 2:
+            n += 1
+            a, b = x.value.elts
+            ok = isinstance(a, ast.BinOp) and isinstance(a.op, ast.FloorDiv) and isinstance(b, ast.BinOp) and isinstance(b.op, ast.Mod) \
+                and norm(a.left) == norm(b.left) and Fo.try_fold(a.right) == Fo.try_fold(b.right) == 10 ** 9 and norm(a.left).endswith("_ns")
+            rep.ob("R11.6", IDX, f.qual, f"{x.targets[0].id} = (ns // 10**9, ns % 10**9) of one integer nanosecond value", ok,
+                   f"`{norm(x.value, 80)}`: seconds and nanoseconds come from different sources (the float field rounds): the entry records "
+                   f"a time up to one second off, and git sees the file as modified", x.lineno)
+    if n < 2:
+        raise AnalysisError(f"index_entry_from_stat: expected 2 (sec, nsec) pairs, found {n}")
+
+
 def run(prog: Program, rep, tier="quick"):
+    rep.rule("R11.6", "SAME-SOURCE: (sec, nsec) of ctime/mtime are quotient and remainder of one integer nanosecond value")
     rep.rule("R11.1", "TABLE-AGREE: reader and writer struct formats, read sizes, padding and extended-flag handling agree")
     rep.rule("R11.2", "bit-fields bounded: flags operands within 16 bits, name length within FLAG_NAMEMASK, dev/ino/size within 32 bits")
     rep.rule("R11.3", "checksum verified on read, written (or zeroed under skipHash) on every normal path")
@@ -245,10 +269,11 @@ def run(prog: Program, rep, tier="quick"):
         if any(isinstance(x, ast.AugAssign) and isinstance(x.op, ast.Sub) and isinstance(x.target, ast.Name) and x.target.id == "delta_base" for x in ast.walk(f.node)):
             ref_enc = f
     if ref_enc is None:
-        raise AnalysisError("pack offset-varint encoder (delta_base -= 1) not found")
+        rep.note("pack offset-varint encoder (`delta_base -= 1`) not recognised any more: see C02 R02.4; the index codec is compared "
+                 "with the frozen features of git's varint.c")
     got = enc_features(fn("_encode_varint").node)
     rep.ob("R11.5", IDX, "_encode_varint", "v4 prefix-length varint encoder agrees with the pack offset-varint encoder (msb first, bias by one)",
-           got == {"msb-first": True, "bias": True}, f"features {got}, pack encoder {enc_features(ref_enc.node)}", fn("_encode_varint").node.lineno)
+           got == {"msb-first": True, "bias": True}, f"features {got}, pack encoder {enc_features(ref_enc.node) if ref_enc else None}", fn("_encode_varint").node.lineno)
     # ---- R11.3
     ir, iw = fn("Index.read"), fn("Index.write")
     g = cfg_of(prog, ir)
@@ -292,4 +317,5 @@ def run(prog: Program, rep, tier="quick"):
     rep.floor("R11.1", 10)
     rep.floor("R11.2", 5)
     rep.floor("R11.3", 3)
+    r11_6(prog, rep)
     rep.floor("R11.4", 5)
